@@ -223,3 +223,17 @@ func AssumeRange(v, lo, hi int64) { Assume(lo <= v && v <= hi) }
 // NoMerge disables callee merging for this run (the callee's paths, including the
 // big.Int buffer-reuse alternatives, are then explored one by one).
 func NoMerge() {}
+
+// AllWritten2 folds f(pre, preExists, post, postExists) over the rows written by the step.
+func AllWritten2(table string, f interface{}) bool { return native().All("written2", table, f) }
+
+// OrmDeletes counts the rows of the table deleted by the step.
+func OrmDeletes(table string) int { return native().Writes("deletes:" + table) }
+
+// UFStub is a stub whose results are deterministic functions of its arguments and
+// otherwise arbitrary (for example: every possible hash function).
+func UFStub(name string) interface{} { return native3().Recorder("uf:" + name) }
+
+// AssumeLoopBound states that no loop of the code under test iterates more than n times
+// in the states considered (an assumption on the pre-state, counted in the evidence).
+func AssumeLoopBound(n int) {}
